@@ -98,7 +98,7 @@ package transport
 //@   ensures resp == ret(tdcExchange, 0, 0) && err == ret(tdcExchange, 0, 1)
 
 // copyMsg / copyMsgWithLenHdr (C01, C16): a private pooled copy of m (with its 2-byte length in front).
-//@ func copyMsgWithLenHdr [C01]
+//@ func copyMsgWithLenHdr [C01, C16]
 //@   ensures (result_1 == nil) == (len(m) <= 65535) && (result_1 == nil) == (result_0 != nil)
 //@   ensures result_1 == nil ==> fresh(result_0) && fresh((*result_0).ref) && len(*result_0) == len(m) + 2 && be16(*result_0) == len(m)
 //@   ensures result_1 == nil ==> forall i int :: 0 <= i && i < len(m) ==> (*result_0)[i+2] == m[i]
@@ -181,14 +181,18 @@ package transport
 //@   ensures (err == nil) == (payload != nil)
 //@   ensures err == nil ==> len(*payload) >= 12
 
-// readMsgUdp: datagrams shorter than a DNS header are skipped.
-//@ func readMsgUdp [C01]
+// readMsgUdp: datagrams shorter than a DNS header (fewer than 12 bytes) are skipped; the first
+// datagram of at least 12 bytes — a bare header is a valid, e.g. truncated, reply — is returned.
+//@ func readMsgUdp [C01, C17]
 //@   requires r != nil
 //@   modifies *
 //@   ensures (result_1 == nil) == (result_0 != nil)
 //@   ensures result_1 == nil ==> len(*result_0) >= 12
+//@   ensures result_1 == nil ==> len(*result_0) == lastret(Read, 0) && lastret(Read, 1) == nil
+//@   ensures result_1 != nil ==> result_1 == lastret(Read, 1)
 //@   loop 0:
 //@     invariant payload != nil && len(*payload) == 4095 && cap(*payload) >= 4095 && r != nil && allocated(payload)
+//@     each iter_calls(Read) == 1 && iter_ret(Read, 0, 1) == nil && iter_ret(Read, 0, 0) < 12
 
 // ---------------------------------------------------------------------------------------------
 // ReuseConnTransport / reusableConn (TCP / DoT without pipelining).
